@@ -29,7 +29,7 @@ pub const HOLES: &[&str] = &[
     "□",
     "token A B; start s; s: □;",
     "token A B; start s; s: A □ B;",
-    "token A; start e; e: □ | A;",
+    "token A; start s; s: □ | A;",
     "token □;",
     "token A; start s; □ s: A;",
     "token A B; start s; s: (□);",
@@ -46,6 +46,7 @@ pub const REDUCED_FILLERS: usize = 7;
 
 /// Syntactically valid seed grammars as token lists (tokens separated by one space).
 pub const LAYOUT_SEEDS: &[&str] = &[
+    "s : A ;",
     "token A ; start s ; s : A ;",
     "token A B C ; start s ; s : A B C ;",
     "token A = 'a' B = 'b' ; start s ; s : 'a' B ;",
@@ -248,6 +249,9 @@ impl Block {
     pub fn weight(&self, ctx: &Ctx) -> usize {
         match self {
             Block::Mut { file, .. } => ctx.repo[*file].text.len(),
+            // blocks whose cases may each start three llw processes (C18): spread them thinly
+            Block::Layout { devs: 0 | 1, .. } => 250_000,
+            Block::Layout { seed, devs: 2, .. } if ctx.layout[*seed].toks.len() <= 4 => 250_000,
             _ => 40,
         }
     }
@@ -347,9 +351,12 @@ impl Block {
                     combo.iter().map(|g| json!({"gap": g, "filler": fill[*g]})).collect();
                 let origin = json!({"family": "LAYOUT", "seed": LAYOUT_SEEDS[*seed],
                     "deviations": gap_fillers});
-                let cli = match devs {
-                    0 | 1 => 1,
-                    2 if toks.len() <= 12 => 2,
+                // one llw process costs 50-200 ms in the sandbox: the quick tier runs the CLI on
+                // all single deviations of the 4-token seed, the thorough tier on those of the seeds with at
+                // most 14 tokens and on all pairs of deviations of the 4-token seed
+                let cli = match (devs, toks.len()) {
+                    (0 | 1, 0..=4) => 1,
+                    (0 | 1, 5..=14) | (2, 0..=4) => 2,
                     _ => 0,
                 };
                 Some(Case { text, origin, cli })
@@ -383,15 +390,15 @@ pub fn plan(ctx: &Ctx, property: &str, thorough: bool) -> Plan {
     let mut rows: Vec<Row> = vec![(0..nh, FULL, "full", 0..4, true), (0..1, FULL, "full", 2..4, false)];
     if thorough {
         rows.push((1..nh, FULL, "full", 2..4, false));
-        rows.push((0..1, FULL, "full", 4..5, true));
-        rows.push((1..nh, REDUCED, "reduced", 4..5, true));
+        rows.push((0..2, FULL, "full", 4..5, true)); // the empty file and `s: □;`
+        rows.push((2..nh, REDUCED, "reduced", 4..5, true));
         rows.push((0..nh, REDUCED, "reduced", 4..5, false));
+        rows.push((0..1, REDUCED, "reduced", 5..6, true));
         rows.push((0..nh, TINY, "tiny", 5..7, true));
         rows.push((0..1, TINY, "tiny", 5..7, false));
     } else {
         rows.push((1..nh, REDUCED, "reduced", 2..4, false));
-        rows.push((0..1, REDUCED, "reduced", 4..5, true));
-        rows.push((1..nh, TINY, "tiny", 4..5, true));
+        rows.push((0..nh, REDUCED, "reduced", 4..5, true));
         rows.push((0..nh, TINY, "tiny", 5..6, true));
     }
     for (holes, alpha, name, ks, spaced) in rows {
@@ -404,14 +411,34 @@ pub fn plan(ctx: &Ctx, property: &str, thorough: bool) -> Plan {
             }
         }
     }
+    // MUT bounds in bytes of the unmutated file, from measured costs: the semantic pass takes
+    // 15 ms (oberon0) to 160 ms (c) per text on the five large example grammars, parse + format 1/50
+    // of that.  (delete/duplicate/swap/truncate, delete/truncate only, insert, byte truncation)
+    const SMALL: usize = 500; // up to left_rec_predicate.llw
+    const MID: usize = 1500; // up to lelwel.llw
+    const BIG: usize = 3400; // up to lua.llw
+    const ALL: usize = usize::MAX;
+    let (token_mutations, delete_truncate, inserts, byte_truncations) = match (thorough, property) {
+        (false, "C18") => (BIG, BIG, SMALL, 0),
+        (false, _) => (MID, MID, SMALL, 0),
+        (true, "C12") => (ALL, ALL, MID, BIG),
+        (true, "C17") => (BIG, ALL, MID, BIG),
+        (true, _) => (ALL, ALL, ALL, ALL),
+    };
     let mut mut_counts = BTreeMap::new();
     for (file, f) in ctx.repo.iter().enumerate() {
-        let mut kinds = vec![MutKind::Identity, MutKind::Delete, MutKind::Duplicate, MutKind::Swap, MutKind::Truncate];
-        if thorough || f.nontrivia < 60 {
-            kinds.push(MutKind::Insert);
-        }
-        if thorough {
-            kinds.push(MutKind::ByteTruncate);
+        let mut kinds = vec![MutKind::Identity];
+        for (kind, limit) in [
+            (MutKind::Delete, delete_truncate),
+            (MutKind::Duplicate, token_mutations),
+            (MutKind::Swap, token_mutations),
+            (MutKind::Truncate, delete_truncate),
+            (MutKind::Insert, inserts),
+            (MutKind::ByteTruncate, byte_truncations),
+        ] {
+            if f.text.len() <= limit {
+                kinds.push(kind);
+            }
         }
         for kind in kinds {
             *mut_counts.entry(format!("{kind:?}")).or_insert(0u64) += 1;
@@ -425,7 +452,6 @@ pub fn plan(ctx: &Ctx, property: &str, thorough: bool) -> Plan {
             blocks.push(Block::Layout { seed, devs, nfillers });
         }
     }
-    let _ = property;
     let mut units = vec![];
     for (b, block) in blocks.iter().enumerate() {
         let len = block.len(ctx);
@@ -440,7 +466,10 @@ pub fn plan(ctx: &Ctx, property: &str, thorough: bool) -> Plan {
     let bounds = json!({
         "LEX": lex_bounds,
         "MUT": {"files": ctx.repo.len(), "blocks_per_mutation_kind": mut_counts,
-                "insert_on": if thorough { "all files" } else { "files with < 60 non-trivia tokens" },
+                "identity_on": "all files",
+                "file_size_limits_in_bytes (18446744073709551615 = all files)": {
+                    "delete_truncate": delete_truncate, "duplicate_swap": token_mutations,
+                    "insert": inserts, "byte_truncation": byte_truncations},
                 "insert_alphabet_size": FULL.len()},
         "LAYOUT": {"seeds": ctx.layout.len(), "g": g, "fillers": FILLERS.len(),
                    "fillers_at_3_deviations": REDUCED_FILLERS},
